@@ -1397,4 +1397,25 @@ theorem skel_refines (hfn : P.n + 11 ≤ fuel) (hfr : P.row.length ≤ fuel) (he
       omega
 end Top
 
+
+/-- consequence for the kernel orders logged by the observer -/
+theorem kers_of_evOk (n sb : Nat) : ∀ (l : List Ev), l.all (evOk n sb) = true →
+    ∀ e ∈ l.flatMap mKers, e = (10, 3) ∨ e = (12, 3) ∨ e = (14, 2) ∨ e = (15, 1) := by
+  intro l
+  induction l with
+  | nil => intro _ e he; simp at he
+  | cons a l ih =>
+    intro h e he
+    simp only [List.all_cons, Bool.and_eq_true] at h
+    rw [List.flatMap_cons, List.mem_append] at he
+    rcases he with he | he
+    · have ha := h.1
+      cases a <;> simp [mKers, evOk] at he ha
+      · rw [he, ha.2]; simp
+      · rw [he, ha.1.2]; simp
+      · rcases he with he | he
+        · rw [he, ha.1.2]; simp
+        · rw [he, ha.2]; simp
+    · exact ih h.2 e he
+
 end SqiProofs.SkelThetaFSim
